@@ -50,12 +50,12 @@ Definition check_floordiv_scalar (eps : Q) (a : fd Q) (c : Q) (cls : nat) (impl 
 Definition model_eq (a b : fd Q) : bool := fd_eqb opsQ c12_rtol c12_atol a b.
 Definition model_eq_defect (a b : fd Q) : option bool := fd_eqb_defect opsQ c12_rtol c12_atol a b.
 Definition model_mem (x : fd Q) (l : list (fd Q)) : bool := mv_mem opsQ c12_rtol c12_atol x l.
-Fixpoint first_eq (x : fd Q) (l : list (fd Q)) : nat :=
+Fixpoint first_eq (x : fd Q) (l : list (fd Q)) : option nat :=
   match l with
-  | [] => 999%nat
-  | e :: l' => if model_eq e x then 0%nat
-               else match first_eq x l' with 999%nat => 999%nat | k => S k end
+  | [] => None
+  | e :: l' => if model_eq e x then Some 0%nat
+               else match first_eq x l' with Some k => Some (S k) | None => None end
   end.
-(* position of the removed element (999 = ValueError) and length of what remains *)
-Definition model_remove (l : list (fd Q)) (x : fd Q) : nat * nat :=
-  (first_eq x l, match mv_remove opsQ c12_rtol c12_atol l x with Some r => length r | None => 999%nat end).
+(* position of the removed element (None = ValueError) and length of what remains *)
+Definition model_remove (l : list (fd Q)) (x : fd Q) : option nat * option nat :=
+  (first_eq x l, match mv_remove opsQ c12_rtol c12_atol l x with Some r => Some (length r) | None => None end).
